@@ -103,8 +103,26 @@ impl Mask {
 		}
 	}
 
-	/// Every flag of every level is read from `v[level][flag]`; a missing flag is an error (nothing is defaulted).
+	/// Either every flag of every level as `v[level][flag]` (a missing flag is an error, nothing is defaulted), or
+	/// the compact form `{"base": "all"|"none", "flip": [[level, flag]..]}` (the base mask with the listed flags inverted).
 	pub fn from_json(v: &Value) -> Result<Mask> {
+		if let Some(base) = v.get("base").and_then(Value::as_str) {
+			let b = match base { "all" => true, "none" => false, _ => return Err(anyhow!("mask.base must be all or none")) };
+			let mut full = mask_json(b);
+			let flips: Vec<Value> = match v.get("flip") {
+				Some(Value::Array(a)) => a.clone(),
+				Some(Value::Object(o)) if o.is_empty() => vec![],
+				_ => return Err(anyhow!("mask.flip must be a list")),
+			};
+			for f in flips {
+				let (l, n) = (f[0].as_str().unwrap_or(""), f[1].as_str().unwrap_or(""));
+				if full.get(l).and_then(|x| x.get(n)).is_none() {
+					return Err(anyhow!("mask.flip: unknown flag {l}.{n}"));
+				}
+				full[l][n] = Value::Bool(!b);
+			}
+			return Mask::from_json(&full);
+		}
 		Ok(Mask {
 			class: read_flags!(ClassInterests::none(), v, "class", [inner_classes, enclosing_method, signature, source_file,
 				source_debug_extension, runtime_visible_annotations, runtime_invisible_annotations, runtime_visible_type_annotations,
@@ -174,11 +192,13 @@ pub struct Ev {
 	pub vis: &'static str,
 	pub arg: String,
 	pub frame: String,
+	/// number of items of a list payload (annotation lists), -1 otherwise
+	pub n: i64,
 }
 
 impl Ev {
 	pub fn to_json(&self) -> Value {
-		json!({"lvl": self.lvl, "ev": self.ev, "c": self.c, "mk": self.mk, "mi": self.mi, "vis": self.vis, "arg": self.arg, "frame": self.frame})
+		json!({"lvl": self.lvl, "ev": self.ev, "c": self.c, "mk": self.mk, "mi": self.mi, "vis": self.vis, "arg": self.arg, "frame": self.frame, "n": self.n})
 	}
 }
 
@@ -338,10 +358,15 @@ impl<T> Recording<T> {
 		(self.inner, Recording { inner: (), sh: self.sh, c: self.c, mk: self.mk, mi: self.mi, nf: self.nf, nm: self.nm, nr: self.nr })
 	}
 	fn ev(&self, lvl: &'static str, ev: &'static str, vis: &'static str, arg: String) {
-		self.sh.log.borrow_mut().push(Ev { lvl, ev, c: self.c, mk: self.mk, mi: self.mi, vis, arg: shorten(arg), frame: String::new() });
+		self.sh.log.borrow_mut().push(Ev { lvl, ev, c: self.c, mk: self.mk, mi: self.mi, vis, arg: shorten(arg), frame: String::new(), n: -1 });
+	}
+	fn set_last_n(&self, n: usize) {
+		if let Some(e) = self.sh.log.borrow_mut().last_mut() {
+			e.n = n as i64;
+		}
 	}
 	fn ev_member(&self, lvl: &'static str, ev: &'static str, mk: &'static str, mi: usize, arg: String) {
-		self.sh.log.borrow_mut().push(Ev { lvl, ev, c: self.c, mk, mi, vis: "", arg: shorten(arg), frame: String::new() });
+		self.sh.log.borrow_mut().push(Ev { lvl, ev, c: self.c, mk, mi, vis: "", arg: shorten(arg), frame: String::new(), n: -1 });
 	}
 }
 
@@ -391,6 +416,7 @@ macro_rules! annotation_methods {
 		}
 		fn finish_annotations((this, visible): Self::AnnotationsResidual, annotations: Self::AnnotationsVisitor) -> Result<Self> {
 			this.ev($lvl, "finish_annotations", vis(visible), format!("{} {annotations:?}", annotations.len()));
+			this.set_last_n(annotations.len());
 			let (inner, me) = this.split();
 			let (res, _empty) = <$inner as $trait>::visit_annotations(inner, visible)?;
 			Ok(me.with(<$inner as $trait>::finish_annotations(res, annotations)?))
@@ -401,6 +427,7 @@ macro_rules! annotation_methods {
 		}
 		fn finish_type_annotations((this, visible): Self::TypeAnnotationsResidual, annotations: Self::TypeAnnotationsVisitor) -> Result<Self> {
 			this.ev($lvl, "finish_type_annotations", vis(visible), format!("{} {annotations:?}", annotations.len()));
+			this.set_last_n(annotations.len());
 			let (inner, me) = this.split();
 			let (res, _empty) = <$inner as $trait>::visit_type_annotations(inner, visible)?;
 			Ok(me.with(<$inner as $trait>::finish_type_annotations(res, annotations)?))
@@ -646,7 +673,7 @@ pub struct RecCode {
 
 impl RecCode {
 	fn raw(&self, ev: &'static str, vis: &'static str, arg: String, frame: String) {
-		self.sh.log.borrow_mut().push(Ev { lvl: "code", ev, c: self.c, mk: "m", mi: self.mi, vis, arg, frame });
+		self.sh.log.borrow_mut().push(Ev { lvl: "code", ev, c: self.c, mk: "m", mi: self.mi, vis, arg, frame, n: -1 });
 	}
 	/// Resolves the label markers of this code's events to positions and shortens the digests.
 	fn seal(&mut self) {
@@ -724,6 +751,9 @@ impl CodeVisitor for RecCode {
 		let d = annotations.iter().map(|a| format!("{} {:?} {:?}", target_code_digest(&a.type_reference), duke::verif::type_path(&a.type_path), a.annotation))
 			.collect::<Vec<_>>().join(";");
 		this.raw("finish_type_annotations", vis(visible), format!("{} {d}", annotations.len()), String::new());
+		if let Some(e) = this.sh.log.borrow_mut().last_mut() {
+			e.n = annotations.len() as i64;
+		}
 		let (res, _empty) = this.inner.visit_type_annotations(visible)?;
 		this.inner = Code::finish_type_annotations(res, annotations)?;
 		Ok(this)
